@@ -21,11 +21,16 @@ type C10Case struct {
 	Limit      int     `json:"limit"`
 }
 
-var c10Counts = map[string]int{"quick": 40_000, "thorough": 800_000}
+var c10Counts = map[string]int{"quick": 60_000, "thorough": 1_200_000}
 
 func c10Gen(r *gen.Rng, tier string, idx int) interface{} {
 	c := &C10Case{Front: []string{"slice", "slicenb", "dimacs"}[r.Intn(3)], PlainFirst: r.Chance(1, 3), Limit: []int{0, 0, 3}[r.Intn(3)]}
-	switch r.Intn(4) {
+	long := false
+	switch r.Intn(6) {
+	case 4, 5: // satisfiable-ish 3-SAT, many short rounds: units are learned under one round's assumptions and must not leak into the next
+		c.N = r.Range(6, 12)
+		c.CNF = gen.Random3SAT(r, c.N, 3, r.Range(300, 430))
+		long = true
 	case 0: // with unit clauses and parse-time propagated facts
 		c.CNF, c.N = gen.RandomCNF(r, gen.CNFOpts{MinVars: 2, MaxVars: 10, MaxLen: 4, Weird: true})
 		c.CNF = append(c.CNF, []int{r.Lit(c.N)})
@@ -49,9 +54,17 @@ func c10Gen(r *gen.Rng, tier string, idx int) interface{} {
 		nv, c.N, c.CNF = 1, 1, append(c.CNF, []int{1, -1})
 	}
 	var prev []int
-	for k := r.Range(1, 6); k > 0; k-- {
+	nbRounds := r.Range(1, 6)
+	if long {
+		nbRounds = r.Range(3, 9)
+	}
+	for k := nbRounds; k > 0; k-- {
 		var l []int
-		switch r.Intn(8) {
+		shape := r.Intn(8)
+		if long && shape < 5 {
+			shape = 7
+		}
+		switch shape {
 		case 0: // empty list
 		case 1: // same as previous round
 			l = append([]int{}, prev...)
@@ -70,6 +83,9 @@ func c10Gen(r *gen.Rng, tier string, idx int) interface{} {
 			l = []int{x, x}
 		default:
 			l = r.DistinctLits(nv, r.Range(1, min(4, nv)))
+			if long {
+				l = r.DistinctLits(nv, r.Range(1, 2))
+			}
 		}
 		c.Rounds = append(c.Rounds, l)
 		prev = l
@@ -167,7 +183,7 @@ func init() {
 		New:      func() interface{} { return &C10Case{} },
 		Run:      c10Run,
 		Setup:    func(string) { InstallSeqHooks() },
-		Rule: "base CNF problems over 2..11 variables (with unit clauses and parse-time facts, satisfiable 3-SAT, over-constrained 3-SAT, mixed; through ParseSlice / ParseSliceNb / ParseCNF) x 1..6 rounds Assume(L); Solve with L empty, random, repeated, equal to or contradicting the previous round, containing x and not x; optionally a plain Solve first; learned limit default or 3; each round is compared with the truth table of formula AND this round's assumptions only, and Sat models are evaluated against every clause as written and every assumption. " +
+		Rule: "base CNF problems over 2..11 variables (with unit clauses and parse-time facts, satisfiable 3-SAT, over-constrained 3-SAT, mixed; through ParseSlice / ParseSliceNb / ParseCNF) x 1..9 rounds Assume(L); Solve with L empty, random, repeated, equal to or contradicting the previous round, containing x and not x; optionally a plain Solve first; learned limit default or 3; each round is compared with the truth table of formula AND this round's assumptions only, and Sat models are evaluated against every clause as written and every assumption. " +
 			"non-trivial = >= 2 rounds; distinct by (formula, rounds)",
 		Assumptions: []string{"reference truth table of internal/ref", "assumed literals only mention variables the problem declares"},
 		Floors: map[string]map[string]int64{
